@@ -124,6 +124,10 @@ def spec_config(nt):
         cfg['unit'] = nt['du']
     if (nt['period'], nt['pu']) != (1, 's') or nt.get('tol', 0.1) != 0.1 or nt.get('force_sampling'):
         cfg['sampling'] = [nt['period'], nt['pu'], nt.get('tol', 0.1)]
+        if nt.get('omit_unit'):
+            cfg['sampling_omit_unit'] = True
+        if nt.get('sampling_first'):
+            cfg['sampling_first'] = True
     return cfg
 
 
